@@ -617,38 +617,13 @@ Push(t) ==
 ----------------------------------------------------------------------------
 (* the collector (global_collector.rs: handle_commands) *)
 
-EmptyAC == [colls |-> <<>>, dang |-> <<>>]
-Sel(b, kind) == SelectSeq(b, LAMBDA c : c.k = kind)
-
-\* amend_span / amend_local_span: records and danglings of one collection
-RECURSIVE AmendQ(_, _, _, _, _)
-AmendQ(q, tr, par, recs, dang) ==
-  IF q = <<>> THEN <<recs, dang>>
-  ELSE LET r == Head(q)
-           p == IF r.par = 0 THEN par ELSE r.par
-       IN IF r.k = "span"
-          THEN AmendQ(Tail(q), tr, par, Append(recs, [name |-> r.n, trace |-> tr, id |-> r.id, parent |-> p, props |-> r.props, events |-> <<>>]), dang)
-          ELSE IF r.k = "event"
-          THEN AmendQ(Tail(q), tr, par, recs, Append(dang, [id |-> p, k |-> "e", v |-> [name |-> r.n, props |-> r.props]]))
-          ELSE AmendQ(Tail(q), tr, par, recs, Append(dang, [id |-> p, k |-> "p", v |-> r.props]))
-
-RECURSIVE AmendAll(_, _, _)
-AmendAll(colls, recs, dang) ==
-  IF colls = <<>> THEN <<recs, dang>>
-  ELSE LET r == AmendQ(Head(colls).q, Head(colls).tr, Head(colls).par, recs, dang) IN AmendAll(Tail(colls), r[1], r[2])
-
-\* mount_danglings: the first record with a given id takes everything parked for that id
-Mount(recs, dang) ==
-  LET ids == {recs[i].id : i \in DOMAIN recs}
-      forId(id) == SelectSeq(dang, LAMBDA d : d.id = id)
-      first(i) == \A j \in 1..(i-1) : recs[j].id # recs[i].id
-      evs(s) == LET e == SelectSeq(s, LAMBDA d : d.k = "e") IN [i \in DOMAIN e |-> e[i].v]
-      prs(s) == A!Cat(LET p == SelectSeq(s, LAMBDA d : d.k = "p") IN [i \in DOMAIN p |-> p[i].v])
-  IN <<[i \in DOMAIN recs |-> IF first(i) THEN [recs[i] EXCEPT !.props = @ \o prs(forId(recs[i].id)), !.events = @ \o evs(forId(recs[i].id))]
-                                           ELSE recs[i]],
-       SelectSeq(dang, LAMBDA d : d.id \notin ids)>>
-
-Post(colls, dang) == LET x == AmendAll(colls, <<>>, dang) IN Mount(x[1], x[2])
+\* the batch processing itself is Collector.tla (pure operators, also applied by TraceColl.tla to the
+\* batches the real collector processed)
+Coll == INSTANCE Collector
+CollCf == [canc |-> Cancelable, fixcd |-> FixCancelDefault, mut |-> Mut]
+EmptyAC == Coll!EmptyAC
+Sel(b, kind) == Coll!Sel(b, kind)
+Post(colls, dang) == Coll!Post(colls, dang)
 
 \* LocalSpans::to_span_records(context): the same amend / mount as the collector, on the caller's
 \* thread, no command.  src = 0: a made-up context; otherwise the context of span src.
@@ -665,51 +640,8 @@ ToRec(t, ls, src) ==
            Rt(t, "torec") @@ [ctx |-> ctx, recs |-> recs])
   /\ UNCHANGED <<spans, lsets, futs, stack, hs, natt>>
 
-RECURSIVE ApplySubmits(_, _, _)
-ApplySubmits(act, subs, stale) ==
-  IF subs = <<>> THEN <<act, stale>>
-  ELSE LET s == Head(subs)
-           RECURSIVE items(_, _, _)
-           items(ac, st, i) ==
-             IF i > Len(s.tok) THEN <<ac, st>>
-             ELSE LET it == s.tok[i]
-                      coll == [q |-> s.q, tr |-> it.tr, par |-> it.par]
-                  IN IF M_("skip-second-copy") /\ \E j \in 1..(i-1) : s.tok[j].cid = it.cid THEN items(ac, st, i + 1)
-                     ELSE IF it.cid \in DOMAIN ac
-                     THEN items([ac EXCEPT ![it.cid].colls = Append(@, coll)], st, i + 1)
-                     ELSE IF ~Cancelable THEN items(ac, Append(st, coll), i + 1)
-                          ELSE items(ac, st, i + 1)
-           r == items(act, stale, 1)
-       IN ApplySubmits(r[1], Tail(subs), r[2])
-
-RECURSIVE DoCommits(_, _, _)
-DoCommits(act, cs, out) ==
-  IF cs = <<>> THEN <<act, out>>
-  ELSE LET c == Head(cs).c IN
-       IF c \in DOMAIN act
-       THEN LET p == Post(act[c].colls, act[c].dang) IN
-            DoCommits([x \in DOMAIN act \ {c} |-> act[x]], Tail(cs), out \o p[1])
-       ELSE DoCommits(act, Tail(cs), out)
-
-RECURSIVE DoStale(_, _)
-DoStale(st, out) == IF st = <<>> THEN out ELSE DoStale(Tail(st), out \o Post(<<Head(st)>>, <<>>)[1])
-
-RECURSIVE FlushActive(_, _, _)
-FlushActive(act, cids, out) ==     \* default configuration: every active collector gives up what it has
-  IF cids = <<>> THEN <<act, out>>
-  ELSE LET c == Head(cids) p == Post(act[c].colls, act[c].dang) IN
-       FlushActive([act EXCEPT ![c] = [colls |-> <<>>, dang |-> IF M_("drain-danglings") THEN <<>> ELSE p[2]]], Tail(cids), out \o p[1])
-
 \* <<active', records>>
-Process(b) ==
-  LET starts == {c.c : c \in A!Rng(Sel(b, "start"))}
-      drops == IF FixCancelDefault /\ ~Cancelable THEN {} ELSE {c.c : c \in A!Rng(Sel(b, "drop"))}
-      a1 == [c \in (DOMAIN active \cup starts) |-> IF c \in starts THEN EmptyAC ELSE active[c]]
-      a2 == [c \in (DOMAIN a1 \ drops) |-> a1[c]]
-      r == ApplySubmits(a2, Sel(b, "submit"), <<>>)
-      cm == DoCommits(r[1], Sel(b, "commit"), <<>>)
-      fa == IF Cancelable THEN <<cm[1], <<>>>> ELSE FlushActive(cm[1], SetToSortSeq(DOMAIN cm[1], <), <<>>)
-  IN <<fa[1], cm[2] \o fa[2] \o DoStale(r[2], <<>>)>>
+Process(b) == Coll!Process(CollCf, active, b)
 
 \* end of a cycle: process, report, and the flush() that owns the cycle returns
 Starting == {t \in Threads : tst[t] = "starting"}
